@@ -133,6 +133,7 @@ func c16(c *core.Ctx) {
 			c.Ob("C16.expiry", fname(schedExp)+"·retain-filter keeps the renewed instance", pos(c, r.at), r.identity, r.detail)
 		}
 	}
+	c.Rule("C16.wake", "when a renewal ends, every request parked at the request gate continues, and the receive gate is released whichever way the OPN exchange ends (C19.gate applies verbatim)", 3)
 	c.Rule("C16.pending", "renew() waits for pendingReq before it re-keys; the counter is balanced on every path of sendRequestWithTimeout (C19.pending applies verbatim): a failed send that leaves it incremented blocks the next renewal for ever, with the request gate held", 1)
 	{
 		tmp := core.NewCtx(c.Prop, c.Tier, c.P)
@@ -143,6 +144,9 @@ func c16(c *core.Ctx) {
 		for _, o := range tmp.Obs {
 			if o.Rule == "C19.pending" {
 				c.Ob("C16.pending", o.Key, o.Pos, o.OK, o.Detail)
+			}
+			if o.Rule == "C19.gate" {
+				c.Ob("C16.wake", o.Key, o.Pos, o.OK, o.Detail)
 			}
 		}
 	}
